@@ -28,8 +28,19 @@ def make_image(kind, rng, size):
         w, h = rng.randint(1, 65535), rng.randint(1, 65535)
         segs = b""
         for _ in range(rng.randint(0, 2)):       # APPn segments before the frame header
-            n = rng.randint(2, 20)
-            segs += b"\xff" + bytes([rng.choice([0xE0, 0xE1, 0xDB, 0xC4])]) + struct.pack(">H", n) + bytes(rng.getrandbits(7) for _ in range(n - 2))
+            n = rng.randint(2, 40)
+            # segment payloads are arbitrary bytes: 0xFF values (a saturated quantisation table), also at the very end,
+            # and byte sequences that look like a frame header must be skipped by the segment length
+            payload = bytearray(rng.getrandbits(8) for _ in range(n - 2))
+            style = rng.random()
+            if style < 0.35 and len(payload) >= 2:
+                payload[-1] = 0xFF
+                if rng.random() < 0.5:
+                    payload[-2] = 0xFF
+            elif style < 0.6 and len(payload) >= 12:
+                fake = b"\xff\xc0\x00\x11\x08" + struct.pack(">HH", rng.randint(1, 999), rng.randint(1, 999))
+                payload[1:1 + len(fake)] = fake
+            segs += b"\xff" + bytes([rng.choice([0xE0, 0xE1, 0xDB, 0xC4])]) + struct.pack(">H", n) + bytes(payload)
         sof = rng.choice([0xC0, 0xC1, 0xC2, 0xC3, 0xC5, 0xC9, 0xCF])
         frame = b"\xff" + bytes([sof]) + struct.pack(">H", 17) + b"\x08" + struct.pack(">HH", h, w) + b"\x03" + b"\x01\x11\x00" * 3
         data = b"\xff\xd8" + segs + frame + body + b"\xff\xd9" + b"\x00" * 10
